@@ -68,7 +68,11 @@ pub fn dispatch(id: &str, tier: Tier, replay: Option<&str>, budget: Duration) ->
 /// Run the check of property `id` into `report`; false if there is no such check.
 pub fn run_check(id: &str, report: &mut Report, budget: Duration) -> bool {
     match id {
-        "C05" => e1::run(id, report, budget),
+        "C05" => {
+            e1::run(id, report, budget);
+            let n = e4::run_deep_c05(report);
+            report.add("traces_validated_against_impl", n);
+        }
         "C18" => {
             e1::run(id, report, budget);
             let n = e4::run_abandoned_reader(report);
